@@ -99,6 +99,31 @@ static std::string mutateFocused(const std::string& base, Rng& rng, std::vector<
     size_t b = a + 1; while (b < lines.size() && !isKw(lines[b])) ++b;
     ops.push_back("focused");
     if (b - a < 2) return base;
+    if (rng.chance(0.15)) {
+        // the keyword a second time, further down, with one of its integers changed: dimensioning keywords entered twice disagree
+        // (which of the two sizes a later keyword and which one the run is not the same everywhere)
+        std::vector<std::string> copy(lines.begin() + a, lines.begin() + b);
+        for (int tries = 0; tries < 4; ++tries) {
+            size_t i = 1 + rng.below(copy.size() - 1);
+            auto t = tokens(copy[i]);
+            std::vector<size_t> ints;
+            for (size_t k = 0; k < t.size(); ++k) if (!t[k].empty() && t[k].find_first_not_of("0123456789") == std::string::npos && t[k].size() < 9) ints.push_back(k);
+            if (ints.empty()) continue;
+            size_t k = ints[rng.below(ints.size())]; long v = atol(t[k].c_str());
+            static const long F[] = {2, 10, 1000};
+            t[k] = std::to_string(rng.chance(0.3) ? std::max(0L, v - 1) : rng.chance(0.5) ? v + 1 : v * F[rng.below(3)] + 1);
+            copy[i] = join(t);
+            break;
+        }
+        std::vector<size_t> later;
+        for (auto& kv : where) for (size_t q : kv.second) if (q >= b) later.push_back(q);
+        const size_t at = later.empty() ? lines.size() : later[rng.below(later.size())];
+        lines.insert(lines.begin() + at, copy.begin(), copy.end());
+        ops.push_back("keyword-again-with-other-numbers");
+        std::string r;
+        for (auto& l : lines) { r += l; r += "\n"; }
+        return r;
+    }
     int nm = 1 + (int)rng.below(2);
     for (int m = 0; m < nm; ++m) {
         size_t i = a + 1 + rng.below(b - a - 1);
@@ -217,7 +242,7 @@ int main(int argc, char** argv) {
         const long cap = args.geti("max_variants", 400);
         rep.run_cases([&](long idx, Rng& rng) {
             std::string base, origin;
-            if (rng.chance(0.7)) { gdeck::Opts o; o.exoticRunspec = rng.chance(0.5); gdeck::Generator gen(rng, o); base = gen.generate().text(); origin = "gdeck-model"; }
+            if (rng.chance(0.7)) { gdeck::Opts o; o.exoticRunspec = rng.chance(0.5); o.richSummary = true; gdeck::Generator gen(rng, o); base = gen.generate().text(); origin = "gdeck-model"; }
             else {
                 std::vector<const Seed*> small;
                 for (auto& sd : corpus) if (sd.name.find("seed raw") == std::string::npos && sd.text.size() < 40000) small.push_back(&sd);
@@ -287,6 +312,7 @@ int main(int argc, char** argv) {
             // complete generated model (70 schedule keyword templates, MSW, UDQ, ACTIONX, network ...): reaches the handlers
             gdeck::Opts o;
             o.exoticRunspec = rng.chance(0.5);
+            o.richSummary = true;
             gdeck::Generator gen(rng, o);
             gdeck::Model m = gen.generate();
             base = m.text(); origin = "gdeck-model";
